@@ -1,6 +1,27 @@
 package main
 
-var abortExceptions = map[string]string{}
+// triaged site by site (findings/abort/abort.md); keyed by function + kind
+var abortExceptions = map[string]string{
+	"dxil/internal/bitcode.EncodeChar6:panic":                            "only caller is Writer.WriteChar6, which has no caller outside tests",
+	"spirv/internal/codegen.Backend.getRayQueryPointerTypeID:panic":      "emitTypes() has already emitted and cached every module type (or made Compile return an error) before any function body runs; the later emitType call returns from the cache with a nil error",
+	"spirv/internal/codegen.Backend.writeRayQueryInitialize:panic":       "same invariant as getRayQueryPointerTypeID: the types were emitted by emitTypes before function bodies",
+	"spirv/internal/codegen.Backend.writeRayQueryGetIntersection:panic":  "same invariant as getRayQueryPointerTypeID",
+	"dxil/internal/emit.Emitter.tryShlAndCombine:assert":                 "peelToAndExpr returns true only after a comma-ok ExprBinary check on the same handle",
+	"dxil/internal/emit.Emitter.tryLoadVectorFromFlatArray:assert":       "isConst is the ok of a comma-ok ExprAccessIndex test on ptrExpr; the function is entered only for ExprAccess / ExprAccessIndex pointer expressions",
+	"dxil/internal/emit.Emitter.resolveBindingArrayUAVChainFromGV:assert": "the only call with isDynamicIndex=false sits under a comma-ok ExprAccessIndex check on the same ai.Base",
+	"dxil/internal/passes/mem2reg.phiWalker.handleIf:assert":             "called only from the matching case of walkBlock's type switch on the same statement",
+	"dxil/internal/passes/mem2reg.phiWalker.handleSwitch:assert":         "called only from the matching case of walkBlock's type switch on the same statement",
+	"dxil/internal/passes/mem2reg.phiWalker.handleLoop:assert":           "called only from the matching case of walkBlock's type switch on the same statement",
+	"glsl/internal/codegen.Writer.writeImageGlobalDecl:assert":           "sole caller is inside case ir.ImageType on the same Types[global.Type]",
+	"hlsl/internal/codegen.Writer.writeImageQueryExpression:assert":      "qt == imageQuerySizeLevel is derived from a type switch on e.Query that yields that value only for ImageQuerySize",
+	"hlsl/internal/codegen.Writer.writeStructDefinition:assert":          "guarded by isMatCx2Type, which does the comma-ok MatrixType test on the same handle",
+	"hlsl/internal/codegen.Writer.writeSingleStructConstructor:assert":   "guarded by isMatCx2Type / isArrayOfMatCx2Type, which do the comma-ok test on the same handle",
+	"spirv/internal/codegen.Backend.emitFunctionImpl:assert":             "input.isStruct is set only inside a comma-ok StructType check for the same entry-point argument",
+	"spirv/internal/codegen.ExpressionEmitter.emitStatement:assert":      "output.isStruct is set only inside a comma-ok StructType check for the same entry-point result",
+	"wgsl/internal/lower.Lowerer.lowerMatrixScalarConstruct:assert":      "sole caller is gated by isMatrixScalarConstruct, which does the comma-ok on cons.Type",
+	"dxil/internal/emit.Emitter.resolveCBVRegIndex:intdiv":               "divisor is a ScalarType.Width; every scalar the lowerer can put into a uniform type tree has width 1, 2, 4 or 8 and ir.Validate rejects width 0 (hand-built IR only: findings/abort/3-6_ironly_test.go)",
+	"dxil/internal/emit.Emitter.emitCBVMultiRegLoad:intdiv":              "divisor is a ScalarType.Width in {1,2,4,8} for every module the lowerer returns (hand-built IR only)",
+}
 
 func init() { register("C10", propC10) }
 
